@@ -17,7 +17,11 @@ RULE = (
     "(pairs, nesting, at most once, ends present, expected stages per outcome class), one "
     "field_start before and one field_end after the resolver for exactly the fields the reference "
     "executor resolves, every middleware exactly once per field with the last listed outermost, "
-    "stacked instrumentations start in order and end reversed. Non-trivial = distinct (request, "
+    "stacked instrumentations start in order and end reversed. "
+    "A quarter of the parseable requests are pre-parsed Documents; stacks contain nested stacks, "
+    "half of them subclasses with recording hooks of their own; type resolvers may raise the "
+    "resolver error (one field end hook).  "
+    "Non-trivial = distinct (request, "
     "configuration, schedule) with >= 2 resolved fields or a failing stage."
 )
 ASSUMPTIONS = ["the set of resolved fields is the set of response paths the reference executor visits",
